@@ -5,6 +5,7 @@ from engine import Unsupported
 from scen_sys import Sys
 from prog_timers import oracle_timers, oracle_restart_timers
 from prog_registry import RegistryProgram, oracle_registry
+from prog_children import ChildrenProgram, oracle_children
 from prog_mailbox import (oracle_containment, oracle_owning, MailboxProgram, oracle_fifo, oracle_own_result, oracle_resolves, oracle_stop_barrier,
                           oracle_backpressure, oracle_handles, oracle_liveness_flags)
 
@@ -16,7 +17,7 @@ def mailbox_programs(tier):
 
     def add(name, cap, scripts, hp=0, tag='q', **kw):
         d = dict(name=name, cap=cap, scripts=scripts, hp=hp, tag=tag, pre=(), started_actions=(), strategy='RestartOnly',
-                 faults=0, max_clock=None, K=None, max_steps=60, started=None, owning=False, registry=False, mt=False)
+                 faults=0, max_clock=None, K=None, max_steps=60, started=None, owning=False, registry=False, mt=False, children=())
         d.update(kw)
         P.append(d)
     # FIFO across paths and clients, own result, stop barrier
@@ -64,6 +65,14 @@ def mailbox_programs(tier):
     add('own_consume', 1 if False else None, {'c1': [('o_send', O, 'a1'), ('consume', O)]}, owning=True)
     add('own_detach', None, {'c1': [('detach', O, 'a'), ('call', 'a', 'a1'), ('downgrade', 'a', 'w'), ('drop', 'a'), ('upgrade', 'w')]}, owning=True)
     add('own_join_killed', None, {'c1': [('o_call', O, 'a1'), ('join', O)]}, owning=True, faults=1, K=2)
+    # children (C16)
+    R, AC = 'register_child', 'add_child'
+    add('children_broadcast_stop', None, {'c1': [('call', A, 'bcast:1'), ('stop', A)]}, children=(('c1', R, False), ('c2', AC, False)), K=2)
+    add('children_two_under_m', None, {'c1': [('call', A, 'bcast:1'), ('call', A, 'bcast:2'), ('drop', A)]}, children=(('c1', R, False), ('c2', R, False)), K=1)
+    add('children_sibling_stopped_first', None, {'c1': [('stop', 'c1'), ('ping', 'c1'), ('call', A, 'bcast:1'), ('stop', A)]}, children=(('c1', R, True), ('c2', R, False)), K=1)
+    add('children_parent_killed', None, {'c1': [('call', A, 'bcast:1'), ('ping', A)]}, children=(('c1', R, False), ('c2', AC, False)), K=1, faults=1)
+    add('children_parent_panics', None, {'c1': [('send', 'c1', 'x1'), ('call', A, 'panic:1')]}, children=(('c1', R, True), ('c2', AC, False)), K=1)
+    add('children_kept_outside', None, {'c1': [('stop', A), ('call', 'c1', 'x1'), ('drop', 'c1')]}, children=(('c1', AC, True),), K=2)
     # service registry (C08 / C14 consequences)
     add('registry_sequential', None, {'c1': [('already_running',), ('from_registry', 'a'), ('already_running',), ('call', 'a', 'm1'), ('from_registry', 'b'), ('stop', 'a'), ('ping', 'b'), ('already_running',), ('from_registry', 'c'), ('try_from_registry',)]}, registry=True)
     add('registry_register', None, {'c1': [('spawn', 'x'), ('register', 'x', 'x2'), ('spawn', 'y'), ('register', 'y'), ('try_from_registry', 'r'), ('stop', 'r'), ('ping', 'r'), ('spawn', 'z'), ('register', 'z', 'z2'), ('already_running',), ('unregister', 'u'), ('already_running',), ('unregister',)]}, registry=True)
@@ -79,6 +88,11 @@ def mailbox_programs(tier):
 def evaluate(tr, status, cap, scripts, spec=None):
     """all oracles on one trace -> {pid: [messages]} (cap: None | int)"""
     out = {k: [] for k in PIDS}
+    if spec is not None and spec.get('children'):
+        out['C16'] += oracle_children(tr, status, spec)
+        out['C02'] += oracle_resolves(tr, status, scripts)
+        out['C06'] += [m for m in oracle_containment(tr, status, scripts) if 'callback' not in m]
+        return out
     if spec is not None and spec.get('registry'):
         out['C08'] += oracle_registry(tr, status, scripts)
         out['C02'] += oracle_resolves(tr, status, scripts)
@@ -106,7 +120,7 @@ def evaluate(tr, status, cap, scripts, spec=None):
     return out
 
 
-PIDS = ('C01', 'C02', 'C04', 'C05', 'C06', 'C07', 'C08', 'C10', 'C12', 'C14', 'C15', 'C17')
+PIDS = ('C01', 'C02', 'C04', 'C05', 'C06', 'C07', 'C08', 'C10', 'C12', 'C14', 'C15', 'C16', 'C17')
 
 
 def run(functions, enums, repo, tier, max_steps=60, seed=0, validate=None):
@@ -130,8 +144,12 @@ def run(functions, enums, repo, tier, max_steps=60, seed=0, validate=None):
         sy.user_script['started_actions'] = spec['started_actions']
         for k, v in (spec['started'] or {}).items():
             sy.user_script[('started', k)] = v
-        cls = RegistryProgram if spec['registry'] else MailboxProgram
-        p = cls(sy, cap, scripts, handler_pending=hp, max_steps=spec['max_steps'], pre=pre)
+        if spec['children']:
+            sy.user_script[('started_actions', 'ctx0')] = tuple((how, h) + (('keep',) if kept else ()) for (h, how, kept) in spec['children'])
+            p = ChildrenProgram(sy, cap, scripts, handler_pending=hp, max_steps=spec['max_steps'], pre=pre, nchildren=len(spec['children']), children_spec=spec['children'])
+        else:
+            cls = RegistryProgram if spec['registry'] else MailboxProgram
+            p = cls(sy, cap, scripts, handler_pending=hp, max_steps=spec['max_steps'], pre=pre)
         p.faults = spec['faults']
         if spec['mt']:
             from scen_sys import mt_yield_hook
@@ -140,7 +158,7 @@ def run(functions, enums, repo, tier, max_steps=60, seed=0, validate=None):
         if spec['max_clock'] is not None:
             p.max_clock = spec['max_clock']
         p.max_preemptions = spec['K']
-        native_ok = not spec['registry'] and not spec['owning'] and not spec['started_actions'] and not spec['faults'] and not spec['started'] and \
+        native_ok = not spec['children'] and not spec['registry'] and not spec['owning'] and not spec['started_actions'] and not spec['faults'] and not spec['started'] and \
             not any(str(op[2]).startswith('panic') for sc in scripts.values() for op in sc if len(op) > 2)
         st = p.setup()
         n = 0
